@@ -45,7 +45,8 @@ PROPS = {
     },
     "C02": {
         "lean": ["Stackage.Props.C02"],
-        "streams": [{"name": "render", "quick": 4000, "thorough": 80000}, {"name": "strunit", "quick": 1000, "thorough": 20000}],
+        "streams": [{"name": "render", "quick": 4000, "thorough": 80000}, {"name": "strunit", "quick": 1000, "thorough": 20000},
+                    {"name": "rerender", "quick": 1500, "thorough": 30000}],
         "rule": "random expression trees (depth <= 3 quick / 5 thorough, width <= 4) of AND/OR/NOT/LIST/BASIC stacks and Conditions with independent "
                 "per-node paren / fold / no-padding / lead-once / symbol (incl. multi-byte) / delimiter (incl. blank, multi-byte) / 0-2 encapsulation "
                 "pairs; leaves: ASCII, multi-byte, embedded / leading / trailing blanks and tabs, NBSP, newline, empty, ints, bools, floats, stringers; "
